@@ -18,7 +18,7 @@ FORMULAS = {
     "C11": {"JoinSound", "WorkersDieAfterStop", "AllDeadAfterStop", "NoDeadlock", "NotStranded", "NoRunWhileStopped"},
 }
 # which algorithm variant /repo is expected to contain (see ThreadPool.tla header)
-FIX = {"FixJoin": "TRUE", "FixGrow": "TRUE"}
+FIX = {"FixJoin": "TRUE", "FixGrow": "TRUE", "FixStart": "TRUE"}
 
 REC = os.path.join(VERIF, "harness", "pool_rec.py")
 
@@ -39,7 +39,7 @@ def consts(nc, tasks, gated, ops, nw=4, fix=None, clear=False):
     fx = fix or FIX
     return ["NW = %d" % nw, "NC = %d" % nc, "Tasks <- %s" % tasks, "MCGated <- %s" % gated, "MaxOps <- %s" % ops,
             "WithClear = %s" % ("TRUE" if clear else "FALSE"),
-            "FixJoin = %s" % fx["FixJoin"], "FixGrow = %s" % fx["FixGrow"]]
+            "FixJoin = %s" % fx["FixJoin"], "FixGrow = %s" % fx["FixGrow"], "FixStart = %s" % fx.get("FixStart", "TRUE")]
 
 
 SAFETY = ["ExactlyOnce", "MaxRunning", "MaxServing", "MinServing", "WorkersDieAfterStop", "CountersSane", "JoinSound",
@@ -57,7 +57,7 @@ def model_runs(ctx):
     if ctx.tier == "quick":
         cfg = write_cfg(ctx, "gen_TP_%s.cfg" % tag, "Spec2", consts(1, "T2", "G1", "Ops1_5"), SAFETY, ["NoRunWhileStopped"])
         r = ctx.model("MC_TP", cfg, workers=16, timeout=900, extra=["-coverage", "1"], expect_violated=expected())
-        zero = set(r.coverage_zero_actions()) - {"P8", "SpawnRefused", "E1w", "E1x"}
+        zero = set(r.coverage_zero_actions()) - {"P8", "SpawnRefused", "E1w", "E1x", "S4w"}
         if zero:
             raise MachineryError("vacuity: actions never taken in the exhaustive run: %s" % sorted(zero))
         # bounded task queue (queue_size 1..2): enqueue blocks inside the critical section or raises Full
@@ -71,7 +71,7 @@ def model_runs(ctx):
     else:
         cfg = write_cfg(ctx, "gen_TP_%s.cfg" % tag, "Spec2", consts(1, "T3", "G2", "Ops1_6"), SAFETY, ["NoRunWhileStopped"])
         r = ctx.model("MC_TP", cfg, workers=16, timeout=3000, heap="12g", extra=["-coverage", "1"], expect_violated=expected())
-        zero = set(r.coverage_zero_actions()) - {"P8", "SpawnRefused", "E1w", "E1x"}
+        zero = set(r.coverage_zero_actions()) - {"P8", "SpawnRefused", "E1w", "E1x", "S4w"}
         if zero:
             raise MachineryError("vacuity: actions never taken in the exhaustive run: %s" % sorted(zero))
         # two clients: concurrent enqueue / join against start / stop
@@ -97,6 +97,13 @@ def model_runs(ctx):
             ctx.model("MC_TP", cfg2, workers=16, timeout=3000, heap="12g")
             os.remove(os.path.join(common.SPEC, cfg2))
     os.remove(os.path.join(common.SPEC, cfg))
+    # start() racing a second client's enqueue() with max_threads = 3 and three gate-blocked tasks: too large for an
+    # exhaustive run, explored by TLC's simulation mode (the original, unlocked counter update strands a task here)
+    n = 4000 if ctx.tier == "quick" else 100000          # behaviours per TLC worker
+    ctx.model("MC_TP", "MC_TP_startrace_fixed.cfg", workers=16, timeout=3000, heap="8g", extra=["-simulate", "num=%d" % n, "-depth", "70", "-seed", str(ctx.seed + 3)])
+    if ctx.tier != "quick":
+        ctx.model("MC_TP", "MC_TP_startrace_orig.cfg", workers=16, timeout=3000, heap="8g", extra=["-simulate", "num=%d" % n, "-depth", "70", "-seed", "7"],
+                  expect_violated=("NotStranded",))
 
 
 def sim_behaviours(ctx, num, depth, seed, nc=1, tasks="T3", gated="G2", ops="Ops1_7", spec="SimSpec", tag="a", clear=True):
